@@ -110,6 +110,56 @@ def draw(ctx, p):
     ctx.require(sorted(sorted(q) for q in polys) == want_polys, "draw: polygons are not exactly one per larger edge (up to max_order) with its members' positions as vertex set")
 
 
+@harness("C20.history", raises_are_violations=True)
+def history(ctx, p):
+    """Two drawings of one object without positions (the default layout), with an edit in
+    between that changes the node set but not the node count (and one that changes the count):
+    the second drawing must succeed and show the current network - one finite marker per
+    node, every line joining the markers of its two members (markers are in node order)."""
+    shape = _shape(p["shape"])
+    N, M, edges = shape
+    pool = [10, 9, -1, 3, "b"]
+    nl = [pool.pop(ctx.choose(f"lab{i}", len(pool))) for i in range(N)]
+    k = ctx.choose("victim", N)
+    edit = ctx.choose("edit", 3)
+    ctx.info["op"] = "draw, edit, draw (no positions given)"
+    ctx.info["args"] = {"labels": nl, "victim": nl[k], "edit": ["replace a node (same count)", "add a node", "remove a node"][edit]}
+    with stubs.uninstalled(), warnings.catch_warnings():
+        warnings.simplefilter("ignore")
+        net = CLS[p["cls"]]()
+        net.add_nodes_from(nl)
+        for e in edges:
+            if p["cls"] == "S":
+                net.add_simplex([nl[i] for i in e])
+            else:
+                net.add_edge([nl[i] for i in e])
+        try:
+            fig, ax = plt.subplots()
+            xgi.draw(net, ax=ax)
+            other = nl[(k + 1) % N]
+            if edit == 0:
+                net.remove_node(nl[k])
+                (net.add_simplex if p["cls"] == "S" else net.add_edge)([other, "new"])
+            elif edit == 1:
+                (net.add_simplex if p["cls"] == "S" else net.add_edge)([other, "new"])
+            else:
+                net.remove_node(nl[k])
+                (net.add_simplex if p["cls"] == "S" else net.add_edge)([other, nl[(k + 2) % N]] if N >= 3 else [other, "new"])
+            fig2, ax2 = plt.subplots()
+            ax2, cols = xgi.draw(net, ax=ax2)
+            node_c, dyad_c, poly_c = cols
+            offs = [_pt(v) for v in node_c.get_offsets()]
+            segs = [frozenset(_pt(v) for v in sg) for sg in (dyad_c.get_segments() if dyad_c is not None else [])]
+        finally:
+            plt.close("all")
+        nodes = list(net.nodes)
+        ctx.require(len(offs) == len(nodes) and all(np.isfinite(o).all() for o in offs), "second drawing: not one finite marker per current node")
+        if len(offs) == len(nodes):
+            where = {n: offs[i] for i, n in enumerate(nodes)}
+            dy = [frozenset(where[n] for n in m) for m in net.edges.members() if len(m) == 2]
+            ctx.require(sorted(sorted(x) for x in dy) == sorted(sorted(x) for x in segs), "second drawing: lines do not join the markers of the current two-node edges")
+
+
 LAYOUTS = {
     "random_layout": lambda H: xgi.random_layout(H, seed=3),
     "pairwise_spring_layout": lambda H: xgi.pairwise_spring_layout(H, seed=3),
@@ -222,6 +272,8 @@ def spec(tier, seed):
                     units.append(("C20.draw", {"cls": cls, "shape": s, "labels": "str"}))
                 if 2 <= s[0] <= 3 and s[1] <= 3:
                     units.append(("C20.draw", {"cls": cls, "shape": s, "mode": "conc"}))
+                if 2 <= s[0] <= 3 and s[1] <= 2:
+                    units.append(("C20.history", {"cls": cls, "shape": s}))
                 if 3 <= s[0] <= 4 and any(len(e) >= 3 for e in s[2]):
                     # a member exactly on the centroid of its edge; tuple labels of equal length
                     units.append(("C20.draw", {"cls": cls, "shape": s, "pos": "centroid"}))
